@@ -66,6 +66,18 @@ CHECKS = {
    technique='deterministic simulation of the client against a scripted peer over a fault-injecting stream (enumerated split points and cut offsets, reset, timeout, trailing bytes); responses built with an independent TTLV encoder',
    text='Every ProxyKmipClient operation (21) under seeded KMIP versions against a scripted responder that sends legal responses built with the independent encoder: success with seeded payload values (all seven object types incl. wrapped and split keys for get) or failure with any result reason and empty/non-ASCII/long messages. The response stream is delivered whole, split (every single split point enumerated for responses <= 256 bytes), cut at EVERY offset (must raise, never return data), reset or timed out, or followed by trailing bytes. Success must return exactly the payload data (independent projection), failure must raise with exactly (status, reason, message), results must not depend on chunking, and every request the client emits must parse with the independent reader and be accepted by the real server decoder.',
    note='Only legal responses are judged (one item echoing the operation, batch count 1). KMIPProxy.open() is stubbed. Which exception a truncated response raises is not prescribed.'),
+ 'C02': dict(level='exploration', ref='5/C02',
+   technique='deterministic simulation with wire monitors: every frame the server hands to sendall and every frame the client library emits, over seeded histories with an error-path and fault mix (corrupted frames, clock jumps and client skew, auth faults, disk errors, size limits), is checked by an independent TTLV reader and the response-envelope rules',
+   text='History half of the property: all frames emitted in simulation, on every path (success, every error class, parse failure, authentication failure, header-level rejection, oversize replacement, internal errors provoked by ENOSPC/EIO) must parse with the independent reader (tag/type/length/padding rules, fixed lengths, UTF-8, structure length = sum of children) and follow the envelope: header with the request\'s protocol version (1.0 allowed only when the request could not be decoded), time stamp inside the simulated request interval, batch count == number of items, result status in every item, reason and message exactly when not Success.',
+   note='The input-only half (every constructible value of every class x version, byte-identical to an independent encoder) is not a simulation target and is not decided; only classes that travel in the simulated traffic are seen.'),
+ 'C16': dict(level='exploration', ref='5/C16',
+   technique='deterministic simulation sweeping the complete version x operation x object type matrix plus DiscoverVersions sub-lists, Query-then-execute and version-conditional attributes, with spec-table monitors incl. a tag scan of every response frame',
+   text='For every supported version (1.0-2.0) and seven unsupported ones, every served operation is issued with a valid request on every stored object type: the response must carry the request version, unsupported versions must be refused without effect, operations newer than the version must be refused without effect, no response frame may contain a tag introduced after (or removed by) the client\'s version, no attribute newer than the version may be accepted in a template or reported, DiscoverVersions must list exactly the supported subset newest first and each listed version must then be accepted, and every operation Query advertises must then be available.',
+   note='Monitors use small tables transcribed from the KMIP specifications (operation/attribute/tag introduction), not the repository\'s. The payload-field x version matrix inside the payload classes is seen only for fields that occur in this traffic.'),
+ 'C20': dict(level='exploration', ref='5/C20',
+   technique='deterministic simulation of histories with canary secrets over every failure path incl. injected disk errors (LD_PRELOAD shim), corrupted frames and authentication failures, with the real client library running part of the traffic; retroactive canary scan of all log records >= INFO and of all result messages',
+   text='Every secret-bearing value (registered key material, secret data, credentials passwords, plaintext/ciphertext/MAC/signature data, wrapping keys, server-generated and derived keys learned afterwards through Get) is a unique high-entropy canary. A root handler at INFO collects every record of every logger (message + exception text, which for disk errors contains SQLAlchemy statement parameters). No canary may occur in raw, hex (both cases), base64 or escaped-bytes form, no hex of a message encoding, and no canary in any result message.',
+   note='Canaries shorter than 8 bytes are not tracked (accidental matches). Logger levels are those the code sets; root level INFO (server default).'),
 }
 ALL = ['C%02d' % i for i in range(1, 21)]
 
